@@ -178,6 +178,61 @@ CLAIMED['C12'] = dict(
    note='Trusted: Coq kernel + vm_compute; FloodM mirrors the loop (correspondence only); C11 codec model for neighbours; harness. No axioms.',
    technique='Coq proof (BFS reachability invariants, group-by specification) + oracle-instantiated in-Coq correspondence; fixed corpus for H3',
    ref='5/C12, 9')
+CLAIMED['C08'] = dict(
+   text='Machine-checked proof over all rational longitude/latitude (no bound) that the model of Coordinate.__init__ (pole-reflection loop, antimeridian loop, 180 -> -180) '
+        'always terminates, stores longitude in [-180,180) and latitude in [-90,90], relates the stored pair to the raw pair by full turns and pole reflections (same_pt, '
+        'characterised exactly as an orbit), is idempotent, fixes canonical input, and is the unique canonical representative away from the poles; that == is equality of '
+        '(lon, lat, z) whatever M is and implies equal hash keys (and conversely), Z and M are stored as given; over the reals, that related pairs have the same unit vector '
+        '(so the stored coordinate denotes the same point of the sphere) and that _from_xyz inverts xyz for every stored pair away from the poles (at the poles the point does '
+        'not depend on the longitude). Tied to the code by an in-Coq correspondence on ints, floats and numeric strings (multiples of 90/180/360, +-0.0, one-ulp neighbours '
+        'of the range ends, dyadics to +-1e5): exact agreement wherever fractions.Fraction shows the float loops exact, 4 ulp otherwise, with the proved range and idempotence '
+        'facts demanded of the implementation output inside Coq; xyz round trip observed numerically.',
+   note='Trusted: Coq kernel + vm_compute; CoordM mirrors the loops (correspondence only); harness exactness guard. Real-number part: Coq Reals axioms '
+        '(ClassicalDedekindReals.sig_forall_dec, sig_not_dec, functional_extensionality_dep) as printed per theorem. Not proved: float rounding inside the loops for non-dyadic '
+        'inputs (bounded by the 4-ulp comparison); libm in xyz/_from_xyz.',
+   technique='Coq proof (fuelled loops proved total, orbit characterisation, uniqueness; trigonometric periodicity over R) + in-Coq correspondence with an exactness guard',
+   ref='5/C08, 9')
+CLAIMED['C13'] = dict(
+   text='PARTIAL. Machine-checked proof (token level: keyword, Z/M marker, nested coordinate tuples; any number of parts, holes, vertices) that reading what was written with the '
+        'type own reader returns the very same shape for points, linestrings, polygons with holes and the three multi forms, that parse_wkt dispatches to that reader, that '
+        'box/circle/ellipse/ring/wedge write and dispatch as POLYGON (box = exactly the WKT of its polygon form; curved shapes conditional on the sampled outline being closed and '
+        'counter-clockwise, which the correspondence observes), that a wrong or unknown keyword, lowercase keyword, wrong nesting depth or a tuple of arity outside 2..4 gives '
+        'ValueError, and that everything the gate accepts has the keyword, depth and arities of its type. REFUTED and recorded as findings: z = 0 is dropped (D14b); a digit run '
+        'split by the number pattern gives TypeError (D26). Tied to the code by the translator (the 11 regular expressions and the parser table of the CURRENT tree, re-parsed '
+        'with the stdlib regex parser and proved equal to the model terms), an executable character-level model of the readers, and an in-Coq correspondence on round trips of '
+        'every kind and on every single-character corruption of valid texts (outcome Ok/ValueError/TypeError compared). Agreement with Shapely as the independent reader is '
+        'OBSERVED on every generated shape (no theorem).',
+   note='Trusted: Coq kernel + vm_compute; gen_wkt.py; WktM mirrors the assembly loops (correspondence); str(float)/float() are inverse on the lexical class the grammar '
+        'accepts (assumed at token level, observed per case); Shapely/GEOS for the independent-reader clause. No axioms.',
+   technique='Coq proof (round trip by induction over parts/holes/vertices, gate soundness, rejection) + regex translator tie + in-Coq correspondence incl. all single-character corruptions',
+   ref='5/C13, 9')
+CLAIMED['C14'] = dict(
+   text='Machine-checked proof about an executable model of to_geojson / from_geojson / parse_geojson / the GeoPolygon constructor: the shoelace sum the code computes is '
+        '-2 x signed area for closed rings (induction; general form for open ones), so is_counter_clockwise decides the orientation and after construction the exterior ring is '
+        'counter-clockwise and every hole clockwise (non-zero area); exported rings are closed (curved shapes conditional on the sampled ring, observed); the export is a Feature '
+        '(FeatureCollection with id = index) with the RFC geometry type, [lon, lat(, z)] positions, JSON-serialisable, dt fields and user properties under properties with '
+        'caller-supplied ones overriding; import(export s) returns an equal shape with the same time bounds and properties for every kind incl. multi-polygons with holes and for '
+        'collections, through Type.from_geojson and parse_geojson; import returns the caller document unchanged, so importing twice gives equal results (refuted for the '
+        'pre-D15 code as a regression statement). REFUTED: z = 0 does not survive (finding D14a). Tied to the code by an in-Coq correspondence: 700+ rings through '
+        'is_counter_clockwise and the constructor, every vertex-defined kind x dt x properties x Z x k x kwargs exported (also after in-place updates of a previously exported '
+        'object), re-imported (dict, twice, text), collections and tracks, a fixed corpus of curved shapes and of 60 edge/malformed documents, the document deep-compared before/after.',
+   note='Trusted: Coq kernel + vm_compute; GeoJsonM/RingM mirror the code (correspondence only); json and datetime.isoformat/fromisoformat are inverse (stdlib, observed per case); '
+        'quarter-degree grid makes the float shoelace exact. M values are outside the property. No axioms.',
+   technique='Coq proof (shoelace induction, constructor normalisation, per-kind round trip, purity as state passing) + in-Coq correspondence incl. export-after-update histories',
+   ref='5/C14, 9')
+CLAIMED['C19'] = dict(
+   text='PARTIAL. Machine-checked proof over all rational coordinates of an exact model of to_dms / from_dms / to_qdms / from_qdms / round_half_up: DMS fields are in range '
+        '(0 <= min < 60, 0 <= sec <= 60 with 60 reachable), hemisphere letters match the sign, the DMS round trip is within (0.5e-5 + 1e-17) arc-second per axis, QDMS strings are '
+        'always 10 and 9 characters (either order) and read back exactly the numbers written, the QDMS round trip is within qdms_eps = 0.005"+0.5e-5" + 0.5e-6 deg per axis and within '
+        '1e-6 deg for inputs with at most 6 decimals. The literal 0.005" is REFUTED for the text (double rounding) and exceeded by the real reader rounding: finding D37. '
+        '"Projected values are returned as-is" is proved only when they happen to lie in the degree ranges and REFUTED in general (finding D20), for every third-party transform. '
+        'Tied to the code by an in-Coq correspondence (57 000+ evaluations: every sign combination, whole seconds, trailing-zero hundredths, seconds rounding to 60, 6-decimal '
+        'inputs, hand-made tuples and digit strings; the float product abs(dd)*3600 enters as the rational it evaluates to with a half-ulp obligation checked in Coq; '
+        "Python '.2f' formatting validated on its whole finite domain). NOT decided by proof: MGRS (1.5 m) and pyproj (1 m) round trips - compiled third-party numerics, "
+        'exercised on fixed corpora (UTM and UPS latitudes, 5 CRSs) only.',
+   note='Trusted: Coq kernel + vm_compute; FormatM mirrors the code (correspondence only); harness. mgrs and pyproj are outside the model. No axioms.',
+   technique='Coq proof (exact rational rounding arithmetic, digit-string read/write inverse) + in-Coq correspondence; fixed corpora for MGRS/pyproj',
+   ref='5/C19, 9')
 NOT_YET = {}
 NA = {
  'C20': 'The observable is the composition of three third-party codecs (pyshp binary I/O, GeoPandas/GEOS, fastkml XML); '
